@@ -1090,7 +1090,16 @@ def nat_grad_without_kwargs(rng):
     holds from an earlier energy evaluation at other coefficients."""
     from eminus.dft import get_grad
 
-    scf, at = _native_scf(Nspin=2, xc="pbe", atom="He")
+    e = 0.0
+    for xc in ("pbe", ":MGGA_X_TPSS,:MGGA_C_TPSS"):
+        e = max(e, _nat_grad_without_kwargs(rng, xc))
+    return e
+
+
+def _nat_grad_without_kwargs(rng, xc):
+    from eminus.dft import get_grad
+
+    scf, at = _native_scf(Nspin=2, xc=xc, atom="He")
     W0 = [np.asarray(w) for w in scf.W]
     W1 = [w + 0.2 * rnd(rng, *w.shape) for w in W0]
     scf.W = [w.copy() for w in W0]
